@@ -6,8 +6,8 @@ header with the offset of the Havok data, `raw_data` = everything from that offs
 file) and `Skeleton::from_existing`.
 
 A binrw read error (bad magic, short header, a version that is neither `0x31323030` nor
-`0x3133303{0,1}`) is `None`; everything that goes wrong inside the Havok reader and the extraction is
-a panic.
+`0x3133303{0,1}`) is `None`, and so is everything that goes wrong inside the Havok reader and the
+extraction (since the fixes `C18-70..76`; a panic before them).
 -/
 namespace Physis.Sklb
 open Physis
@@ -47,11 +47,11 @@ def fromExisting (file : Bytes) : Outcome (List Havok.Bone) :=
   | .ok off =>
     -- `seek_before(SeekFrom::Start(havok_offset))` + `until_eof`
     match Havok.read (Rd.seekTo file off) with
-    | none => .panic
+    | none => .none
     | some objs =>
       match Havok.extract objs with
       | .bones l => .ok l
-      | .panic => .panic
+      | .reject => .none
       | .unmodelled => .unmodelled
   | .none => .none
   | .panic => .panic
